@@ -285,16 +285,21 @@ PROPS["C11"] = dict(
          "against an independent recursive-descent scanner (Spec.Pos) that computes the first byte after which no continuation is JSON.",
     trusted_base=MACHINE_TB,
     assumptions=["side-condition errors (surrogates, UTF-8, number range, depth) are only required to lie within the input"],
-    partial=["c11_earliest (the prefix before the reported byte is still viable) is not proved yet; the correspondence checks it "
-             "against Spec.Pos on every generated input"],
+    partial=["c11_earliest holds under the state predicate SideOK (vacuous for skipped content, and for &str input under "
+             "arbitrary_precision): a Value state can be doomed by a side condition before any grammar error is reported -- a string "
+             "whose bytes can no longer pass the UTF-8 check of byte sources (c11_sideOK_needed: '\"\\xff' + U+0001), a number "
+             "committed to a non-negative exponent whose mantissa alone is out of f64 range ('1' '0'x309 'e+x'); faults inside a \\u "
+             "group are reported at the group's fourth byte (k = 4). The converse (SideOK is necessary) is proved only for the UTF-8 case"],
     technique="Lean 4 theorems on the byte-step machine (errors are raised by the step that reads the offending byte and are stable "
               "under extension; Eof errors only at end of input; line/column arithmetic) + independent positioned scanner as oracle",
     level_text="Machine-checked: c11_dead (a grammar error reported at byte count idx dooms the prefix of length idx: every continuation "
                "fails identically), c11_eof_at_end, c11_within_input, c11_line / c11_col_* (the line/column formulas of the statement), "
+               "c11_earliest / c11_earliest_ignored / c11_earliest_str_ap / c11_earliest_grammar (the bytes before the reported one "
+               "have an accepted continuation: explicit completions of every machine state, Proofs/Earliest*.lean), "
                "for Value and ignored targets, all configurations and sources. Every error position the crate reports on generated "
                "non-JSON inputs is compared with the model and with an independent first-dead-byte scanner.",
     level_note="Trusted: Lean kernel + 3 standard axioms; extract.py; harness/driver; machine model validated by correspondence; "
-               "Spec.Pos (independent recursive-descent scanner) as executable oracle. c11_earliest not yet a theorem.",
+               "Spec.Pos (independent recursive-descent scanner) as executable oracle.",
 )
 
 PROPS["C14"] = dict(
@@ -335,14 +340,16 @@ PROPS["C12"] = dict(
     trusted_base=MACHINE_TB,
     assumptions=["byte_offset() after the stream has failed is not constrained by the property and is not compared",
                  "typed item types are not yet inside the model"],
-    partial=["c12_values (the yielded values/offsets are exactly those of the grammar's decomposition) awaits parser completeness; "
-             "until then it is checked on every generated stream against the independent scanner Spec.Pos + Spec.Canon"],
+    partial=[],
     technique="Lean 4 theorems over a model of Iterator::next on top of the byte-step machine (fusedness by invariant over call "
               "histories, progress, Eof errors only at end of input) + history-level differential run against the crate and an "
               "independent grammar-based oracle",
     level_text="Machine-checked: c12_fused (after a failed value every later next() is None, for any number of calls), c12_error_fails, "
                "c12_progress (each yielded value consumes at least one byte: next() terminates and yields at most n values), "
-               "runPrefix_eof_at_end (an Eof error is reported only at the end of the available input). The delimiter and "
+               "runPrefix_eof_at_end (an Eof error is reported only at the end of the available input), c12_values / c12_values_one "
+               "(a stream w0 v1 w1 .. vn wn of derivable values meeting the side conditions and the delimiter rule yields exactly "
+               "canonM of each tree with byte_offset() just past each value, then None forever at the end of the input: "
+               "c12_expected_at, c12_expected_end, c12_values_canon). The delimiter and "
                "self-delineation sets are regenerated from src/de.rs. Whole histories (items and byte offsets) of the crate are "
                "compared with the model and with an independent grammar-based expectation.",
     level_note="Trusted: Lean kernel + 3 standard axioms; extract.py; harness/driver; machine and stream models validated by "
